@@ -1,10 +1,14 @@
-(* GENERATED by tools/gen_casttable.py from /repo/codegen.c -- do not edit *)
+(* The cast table as the floating-point development expects it, row by row: written down once by
+   hand from the reviewed sequences (u64 -> float/double by halving with a sticky bit, fp -> u64 by
+   subtracting 2^63 and flipping bit 63, x87 stores with the control word set to truncation, the
+   right sign/zero extension after every narrow store).  Gen/CastTable.v is regenerated from
+   codegen.c on every run; Proofs/FloatConvProofs.v proves the two equal, so any edit of a row in
+   codegen.c breaks that proof obligation. *)
 From Coq Require Import List String.
 From Chibicc Require Import Model.X86Int Model.CodegenInt.
 Import ListNotations.
 Local Open Scope string_scope.
-(* rows: from-type, columns: to-type, both in the order I8 I16 I32 I64 U8 U16 U32 U64 F32 F64 F80 *)
-Definition cast_table : list (list (option (list xinsn))) :=
+Definition expected_cast_table : list (list (option (list xinsn))) :=
  [
   (* from I8 *) [None;
      None;
